@@ -1,7 +1,6 @@
 package jschema
 
 import (
-	stdBytes "bytes"
 	"encoding/json"
 
 	"github.com/jsightapi/jsight-schema-core/bytes"
@@ -101,9 +100,15 @@ func (b *exampleBuilder) buildObjectKey(k ischema.ObjectNodeKey) ([]byte, error)
 	if err != nil {
 		return nil, err
 	}
+	// The example of a string type is already a JSON string. Only its own pair
+	// of quotes may go: trimming every quote at the ends would also take the
+	// quote of an escape (`"say \"hi\""`) and leave broken JSON.
+	if len(ex) >= 2 && ex[0] == '"' && ex[len(ex)-1] == '"' {
+		return ex, nil
+	}
 	quoted := make([]byte, 0, len(ex)+2)
 	quoted = append(quoted, '"')
-	quoted = append(quoted, stdBytes.Trim(ex, `"`)...)
+	quoted = append(quoted, ex...)
 	return append(quoted, '"'), nil
 }
 
